@@ -2,78 +2,89 @@
  * xcm.c:189-283): create ; init ; [attribute failure: close] ; connect|server ; [traffic] ; close|cleanup ; destroy --
  * with destroy WITHOUT close after a failed init or a failed connect/server (xcm_tp.h:64-70).  The REAL wrappers run
  * back to back on the object xcm_tp_socket_create returned (no contract of this unit is assumed for them); only the
- * transport, libxcm/ctl and the id allocator are the stubs of contracts/tpcore.h.
+ * transport, libxcm/ctl and the id allocator are the stubs of contracts/tpcore.h.  The driver xv_life below is harness
+ * code (it stands for xcm.c, which unit xcmcore verifies against contracts of these wrappers); it carries a contract
+ * only because DFCC needs a function to enforce.
  * Decides: every control interface that came into being is destroyed again on every path (xv_ctl_live back to its
- * entry value), as owner on close, not as owner on cleanup; the socket object is the only heap object and is freed on
- * every path (--memory-leak-check); nothing is used after free (pointer checks). */
+ * entry value), as owner on close, not as owner on cleanup; no wrapper touches the socket after it was handed to
+ * destroy (pointer checks).  The socket comes from create's CONTRACT (proved in job
+ * create; heap balance of create;destroy: job create_destroy) because CBMC cannot carry the calloc'ed object through
+ * wrappers that store a nondeterministic ctl pointer in it (> 14 GB).  Address and buffer arguments are NULL: the wrappers
+ * only pass them on (jobs connect/server/send, any pointer), and the stubs' pointer-typed argument record cannot take
+ * two different values on one path (see contracts/tpcore.h, note at xv_upd_calls). */
 //@ tu: libxcm/tp/common/xcm_tp.c
-//@ replace: xv_init_stub xv_connect_stub xv_server_stub xv_close_stub xv_cleanup_stub xv_accept_stub xv_send_stub xv_receive_stub xv_update_stub xv_finish_stub xv_enable_ctl_stub xv_priv_size_stub ctl_process ctl_create ctl_destroy get_next_sock_id
-//@ flags: --object-bits 10 --memory-leak-check
+//@ enforce: xv_life
+//@ replace: xv_init_stub xv_connect_stub xv_server_stub xv_close_stub xv_cleanup_stub xv_accept_stub xv_send_stub xv_receive_stub xv_update_stub xv_finish_stub xv_enable_ctl_stub xv_priv_size_stub ctl_process ctl_create ctl_destroy get_next_sock_id xcm_tp_socket_create
+//@ flags: --object-bits 10
 //@ props: C08 C14
 //@ safety: C08
-//@ expect: assertion>=8 memory-leak>=1 canary=8
+//@ expect: postcondition>=1 assertion>=6 canary=8
 #include "_unit.h"
-void harness(void)
+#define LIFE_ASSIGNS OP_ASSIGNS, xv_upd_calls, xv_upd_seq, xv_updt_calls, xv_updt_seq, EN_ASSIGNS, CTLP_ASSIGNS, CTLC_ASSIGNS, CTLD_ASSIGNS, xv_ctl_live, \
+                     xv_ps_calls, xv_ps_arg, xv_ps_ret, xv_id_calls, xv_id_ret
+/* returns: 1 init failed, 2 closed before connect, 3 connect/server failed, 4 lived and was cleaned up in a forked child, 5 lived and was closed */
+static int xv_life(const struct xcm_tp_proto *proto, enum xcm_socket_type type, bool auto_ctl, bool auto_upd, bool blocking,
+                   bool attrs_fail, bool child, size_t len)
+__CPROVER_requires(PROTO_REQ(proto) && XV_TP_RANGE_IN && xv_j >= 0)
+__CPROVER_assigns(LIFE_ASSIGNS)
+/* PO[C08,C14] lifecycle.every_ctl_destroyed: on every path, what connect/server brought up, close/cleanup took down */
+__CPROVER_ensures(xv_ctl_live == __CPROVER_old(xv_ctl_live) && __CPROVER_return_value >= 1 && __CPROVER_return_value <= 5)
 {
-    xv_ghost_havoc();
-    xv_tpcore_havoc();
-    __CPROVER_assume(XV_TP_RANGE_IN);
-    struct xcm_tp_ops ops = xv_all_stubs;
-    if (nondet_bool()) ops.enable_ctl = NULL;           /* every transport but utls */
-    struct xcm_tp_proto proto; proto.ops = &ops;
-    enum xcm_socket_type type = nondet_bool() ? xcm_socket_type_conn : xcm_socket_type_server;
-    bool auto_ctl = nondet_bool(), auto_upd = nondet_bool(), blocking = nondet_bool(), attrs_fail = nondet_bool(), child = nondet_bool();
-    const char *addr = nondet_voidp(); const void *buf = nondet_voidp(); size_t len = nondet_size_t();
     long live0 = xv_ctl_live, d0 = xv_ctld_calls, c0 = xv_ctlc_calls, e0 = xv_en_calls;
-
-    struct xcm_socket *s = xcm_tp_socket_create(&proto, type, NULL, auto_ctl, auto_upd, blocking);
-    /* the private area is not touched by any code of this unit after the calloc (job create covers every size up to
-     * XV_PRIV_MAX); a heap object of symbolic size up to 16 MiB carried through eight calls costs > 10 min */
-    __CPROVER_assume(xv_ps_ret <= 64);
+    struct xcm_socket *s = xcm_tp_socket_create(proto, type, NULL, auto_ctl, auto_upd, blocking);
     /* PO[C08,C14] lifecycle.new_socket_has_no_ctl */
     __CPROVER_assert(s->ctl == NULL && s->skipped_ctl_calls == 0 && xv_ctl_live == live0, "PO lifecycle.new_socket_has_no_ctl");
     if (xcm_tp_socket_init(s, NULL) < 0) {
         xcm_tp_socket_destroy(s);
         /* PO[C08] lifecycle.failed_init_leaves_nothing */
         __CPROVER_assert(xv_ctl_live == live0 && xv_ctlc_calls == c0 && xv_en_calls == e0, "PO lifecycle.failed_init_leaves_nothing");
-        XV_CANARY("init failed: destroyed without close");
-        return;
+        return 1;
     }
     if (attrs_fail) {
         xcm_tp_socket_close(s);
         xcm_tp_socket_destroy(s);
         /* PO[C08] lifecycle.close_before_connect_leaves_nothing */
         __CPROVER_assert(xv_ctl_live == live0 && xv_ctld_calls == d0 + 1 && xv_ctld_arg == NULL, "PO lifecycle.close_before_connect_leaves_nothing");
-        XV_CANARY("attribute failure: closed before connect");
-        return;
+        return 2;
     }
-    int rc = type == xcm_socket_type_conn ? xcm_tp_socket_connect(s, addr) : xcm_tp_socket_server(s, addr);
+    int rc = type == xcm_socket_type_conn ? xcm_tp_socket_connect(s, NULL) : xcm_tp_socket_server(s, NULL);
     if (rc < 0) {
         xcm_tp_socket_destroy(s);
         /* PO[C08] lifecycle.failed_connect_leaves_no_ctl: destroy without close is enough (no control interface was created) */
         __CPROVER_assert(xv_ctl_live == live0 && xv_ctlc_calls == c0 && xv_en_calls == e0 && xv_ctld_calls == d0, "PO lifecycle.failed_connect_leaves_no_ctl");
-        XV_CANARY("connect/server failed: destroyed without close");
-        return;
+        return 3;
     }
-    if (rc == 0 && xv_ctl_live == live0 + 1) XV_CANARY("control interface is up");
     if (type == xcm_socket_type_conn) {
         (void)xcm_tp_socket_finish(s);
-        (void)xcm_tp_socket_send(s, buf, len);
+        (void)xcm_tp_socket_send(s, NULL, len);
     }
+    const struct ctl *ctl = s->ctl;      /* the control interface connect/server left (NULL: none) */
     if (child) {
         xcm_tp_socket_cleanup(s);
         /* PO[C08] lifecycle.cleanup_is_not_owner */
-        __CPROVER_assert(xv_ctld_calls == d0 + 1 && !xv_ctld_owner && xv_op_kind == XV_OP_CLEANUP, "PO lifecycle.cleanup_is_not_owner");
-        if (xv_ctld_arg != NULL) XV_CANARY("forked child: control interface dropped, not as owner");
+        __CPROVER_assert(xv_ctld_calls == d0 + 1 && xv_ctld_arg == ctl && !xv_ctld_owner && xv_op_kind == XV_OP_CLEANUP, "PO lifecycle.cleanup_is_not_owner");
     } else {
         xcm_tp_socket_close(s);
         /* PO[C08,C14] lifecycle.close_is_owner */
-        __CPROVER_assert(xv_ctld_calls == d0 + 1 && xv_ctld_owner && xv_op_kind == XV_OP_CLOSE, "PO lifecycle.close_is_owner");
-        if (xv_ctld_arg != NULL) XV_CANARY("closed: control interface destroyed as owner");
+        __CPROVER_assert(xv_ctld_calls == d0 + 1 && xv_ctld_arg == ctl && xv_ctld_owner && xv_op_kind == XV_OP_CLOSE, "PO lifecycle.close_is_owner");
     }
     xcm_tp_socket_destroy(s);
-    /* PO[C08,C14] lifecycle.every_ctl_destroyed: what connect/server brought up, close/cleanup took down */
-    __CPROVER_assert(xv_ctl_live == live0, "PO lifecycle.every_ctl_destroyed");
-    if (xv_ctlc_calls == c0 + 1 && xv_ctlc_ret == NULL) XV_CANARY("ctl_create failed silently: nothing to destroy");
-    if (xv_en_calls == e0 + 1) XV_CANARY("transport's own enable_ctl");
+    return child ? 4 : 5;
+}
+void harness(void)
+{
+    xv_ghost_havoc();
+    xv_tpcore_havoc();
+    const struct xcm_tp_proto *proto; enum xcm_socket_type type; bool auto_ctl, auto_upd, blocking, attrs_fail, child;
+    size_t len;
+    long live0 = xv_ctl_live, c0 = xv_ctlc_calls, e0 = xv_en_calls, d0 = xv_ctld_calls;
+    int rv = xv_life(proto, type, auto_ctl, auto_upd, blocking, attrs_fail, child, len);
+    if (rv == 1) XV_CANARY("init failed: destroyed without close");
+    if (rv == 2) XV_CANARY("attribute failure: closed before connect");
+    if (rv == 3) XV_CANARY("connect/server failed: destroyed without close");
+    if (rv == 4 && xv_ctlc_calls == c0 + 1 && xv_ctlc_ret != NULL) XV_CANARY("forked child, control interface was up");
+    if (rv == 5 && xv_ctlc_calls == c0 + 1 && xv_ctlc_ret != NULL) XV_CANARY("closed, control interface was up");
+    if (rv == 5 && xv_ctlc_calls == c0 + 1 && xv_ctlc_ret == NULL) XV_CANARY("ctl_create failed silently: nothing to destroy");
+    if (rv == 5 && xv_en_calls == e0 + 1) XV_CANARY("transport's own enable_ctl");
+    if (rv == 5 && xv_ctlc_calls == c0 && xv_en_calls == e0) XV_CANARY("no control interface wanted");
 }
